@@ -75,6 +75,8 @@ impl Drop for Zt {
 pub enum ZOp {
     /// drain(a..b), script bits/len over {next,next_back}, then drop the drain
     Drain(usize, usize, u64, u8),
+    /// the same, but the drain is leaked with mem::forget
+    DrainForget(usize, usize, u64, u8),
     IntoIter(u64, u8),
     CloneBuf,
     ToVec,
@@ -92,6 +94,7 @@ impl ZOp {
     pub fn show(&self) -> String {
         match *self {
             ZOp::Drain(a, b, bits, len) => format!("drain({},{},{},{})", a, b, bits, len),
+            ZOp::DrainForget(a, b, bits, len) => format!("drain_forget({},{},{},{})", a, b, bits, len),
             ZOp::IntoIter(bits, len) => format!("into_iter({},{})", bits, len),
             ZOp::CloneBuf => "clone".into(),
             ZOp::ToVec => "to_vec".into(),
@@ -114,6 +117,7 @@ impl ZOp {
         let a = |i: usize| args.get(i).copied();
         Some(match name {
             "drain" => ZOp::Drain(a(0)? as usize, a(1)? as usize, a(2)?, a(3)? as u8),
+            "drain_forget" => ZOp::DrainForget(a(0)? as usize, a(1)? as usize, a(2)?, a(3)? as u8),
             "into_iter" => ZOp::IntoIter(a(0)?, a(1)? as u8),
             "clone" => ZOp::CloneBuf,
             "to_vec" => ZOp::ToVec,
@@ -184,6 +188,16 @@ pub fn zst_case<const N: usize>(rot: usize, len: usize, op: ZOp, fault: Option<(
                 }
                 drop(d);
                 expect_len = Some(len - (bb - a));
+            }
+            ZOp::DrainForget(a, bb, bits, sl) => {
+                let mut d = buf.drain(a..bb);
+                for i in 0..sl as usize {
+                    let y = if (bits >> i) & 1 == 1 { d.next_back() } else { d.next() };
+                    if let Some(e) = y {
+                        held.push(e);
+                    }
+                }
+                std::mem::forget(d);
             }
             ZOp::IntoIter(bits, sl) => {
                 let owned = *b.take().unwrap();
@@ -258,6 +272,24 @@ pub fn zst_case<const N: usize>(rot: usize, len: usize, op: ZOp, fault: Option<(
     let buf_len = b.as_ref().map(|x| x.len()).unwrap_or(0);
     let caller = held.len() + slice.len() + extra_clones.len() + other.as_ref().map(|o| o.len()).unwrap_or(0) + clone_buf.as_ref().map(|c| c.len()).unwrap_or(0);
     let alive = live();
+    if let ZOp::DrainForget(..) = op {
+        // leaked drain: elements may be lost, but what the buffer still holds plus what was handed out
+        // can never exceed what there was, and nothing may be destroyed twice later
+        if buf_len + held.len() > len {
+            probs.push(format!("after leaking the drain the buffer holds {} and {} were handed out, but there were only {} elements", buf_len, held.len(), len));
+        }
+        let r2 = catch_unwind(AssertUnwindSafe(move || {
+            drop(held);
+            drop(b);
+        }));
+        if r2.is_err() {
+            probs.push("final drop panicked".into());
+        }
+        if live() < 0 {
+            probs.push(format!("after leaking the drain and dropping everything, {} more destructor runs than elements created", -live()));
+        }
+        return (probs, clone_calls, drop_calls);
+    }
     if !panicked {
         if let Some(w) = expect_len {
             if buf_len != w {
@@ -331,6 +363,18 @@ fn ops_for(prop: &str, n: usize, len: usize) -> Vec<(ZOp, bool /*clone faults*/,
     };
     match prop {
         "C09" => drains(&mut v, false),
+        "C10" => {
+            for a in 0..=len {
+                for b in a..=len {
+                    let l = b - a;
+                    for sl in 0..=(l + 1).min(4) {
+                        for bits in 0..(1u64 << sl) {
+                            v.push((ZOp::DrainForget(a, b, bits, sl as u8), false, false));
+                        }
+                    }
+                }
+            }
+        }
         "C03" => {
             drains(&mut v, false);
             for sl in 0..=(len + 1).min(5) {
